@@ -102,6 +102,13 @@ class Pair:
                         sa.delete_ike_sa_at = sim.clock - 1
                     break
             sent = ep.tick()
+        elif kind == 'dpd':
+            ep = self.ep(action[1])
+            for sa in ep.controller.ike_sas:
+                if int(sa.state) == 10:
+                    sa.start_dpd_at = sim.clock - 1
+                    break
+            sent = ep.tick()
         elif kind == 'kfail':
             ep = self.ep(action[1])
             ep.kernel.fail.add(ep.kernel.n + action[2])
